@@ -188,6 +188,19 @@ class Nullness:
             src, alias = self.sources(pa)
             if not src:
                 continue
+            # the failed result itself may have been replaced by a literal NULL on its way (an inlined builder that returns NULL
+            # when its constructor did): NULL handed to a routine that dereferences that parameter unchecked
+            for s, origin in src.items():
+                if not pa.st.known_null(s):
+                    continue
+                for e in pa.events:
+                    if e.kind == "call" and e.ckind == "lib" and e is not origin and e.nfacts >= origin.nfacts:
+                        for k_, a_ in enumerate(e.args):
+                            if a_ == ("c", 0) and k_ in self.mdu.get(e.callee, ()) and \
+                                    k_ < len(self.cache.prog.funcs[e.callee].params) and self.cache.prog.funcs[e.callee].params[k_]["type"].endswith("*"):
+                                key = (origin.ins.id, e.ins.id)
+                                seen[key] = (False, "deref", origin, e,
+                                             "result of %s (%s) may be NULL when it reaches %s at %s" % (origin.callee, origin.ins.loc(), e.callee, e.ins.loc()), pa)
             for s, origin in src.items():
                 for e in pa.events:
                     if e is origin:
@@ -370,9 +383,10 @@ class Balance:
                         self.uaf.append((bt, dead[bt], e))
             if e.kind == "load":
                 b, off = ptr_key(e.args[0])
-                if off == self.top_off and e.ins is not None and e.ins.type.endswith("_cbor_stack_record*"):
+                syn = e.extra == "synthetic"    # a read made by a callee whose result is "the field as it was" (paths.entry_field_result)
+                if off == self.top_off and e.ins is not None and (syn or e.ins.type.endswith("_cbor_stack_record*")):
                     last_top[b] = e.res
-                if off == self.item_off and isinstance(b, tuple) and e.ins is not None and e.ins.type == "%struct.cbor_item_t*" \
+                if off == self.item_off and isinstance(b, tuple) and e.ins is not None and (syn or e.ins.type == "%struct.cbor_item_t*") \
                         and b in last_top.values():
                     alias[e.res] = ("frameitem", b)
             elif e.kind == "store":
